@@ -70,6 +70,16 @@ class Analysis:
                 out.append(f)
         return out
 
+    def closure_all(self, entry: str) -> List[FunctionInfo]:
+        """Functions reachable from the entry under any supported interpreter version (version-specific branches pruned per version)."""
+        seen, out = set(), []
+        for V in VERSIONS:
+            for f in self.closure(entry, V):
+                if f.qual not in seen:
+                    seen.add(f.qual)
+                    out.append(f)
+        return out
+
     def stats(self, interps) -> dict:
         fns = set()
         internal, external = set(), set()
